@@ -1,18 +1,28 @@
-import OjgVerif.JPath.LemmasSel
+import OjgVerif.JPath.LemmasRfc
 /-! # C05 — Expr.Get returns exactly the elements the path denotes
 
-`getM` is the model of `Expr.Get` (jp/get.go): a work-list machine with separate last-fragment and inner
-branches, reverse pushes, the truncated-division slice arithmetic, `maxEnd` and the flag masks from
-the regenerated `Gen.Jp`. `Spec.eval` is the documented denotation (iterated `flatMap` of `sel`).
+**What is and is not in these theorems, up front.**
+* `getM` is a hand-written model of `Expr.Get` (jp/get.go): a work-list machine with separate last-fragment and
+  inner branches, reverse pushes, the truncated-division slice arithmetic, `maxEnd` and the flag masks from the
+  regenerated `Gen.Jp`. It is tied to the Go code by the correspondence run, not by a proof.
+* **Filters are an abstract predicate** `p : JV → Bool` inside `Frag.filter p`: the theorems hold for every
+  predicate and say nothing about what a script means. What a script means is `JPath/FilterSpec.lean` (the
+  documented script semantics, evaluated in Lean); that Get keeps exactly the elements on which the script is
+  true in that sense is decided by the run (harness + driver), not by a theorem here.
+* Two denotations: `evalRfc` — the **documented** semantics (slices per RFC 9535 §2.3.4.2, transcribed in
+  `Spec.lean` from the RFC) — and `eval`, the reading the code implements, which differs from it only for
+  slices with a negative step outside `sliceIdx_eq_rfc_neg` (absent start or end, start outside `-n ≤ · < n`).
 
 * `machine_eq_skeleton` — the machine computes the recursive evaluation over its selection functions, for
   every path, every tree and every configuration (termination: `Get.cost` is a proved fuel bound).
-* `C05_general` — for every configuration of the deviation flags, the machine returns exactly the
-  denotation (same elements, same order) whenever the hypotheses keep the flagged branches out.
-* `C05_current` — **the code as it is now** (`Cfg.pinned`, after the fixes baff053 and 0e0caaf): every path
-  that does not end in a bare descent and every tree of at most `maxEnd` nodes. `C05_fixed`: the same for
-  the configuration with every flag off.
-* `C05_full_false` — the statement without the restriction on the last fragment is still false
+* `C05_current_rfc` — **the code as it is now against the documented semantics**: Get returns exactly what the
+  path denotes (same elements, same order) for every path without a negative-step slice that does not end in
+  a bare descent, every tree of at most `maxEnd` nodes. `C05_slice_step` is the index-level statement behind
+  it, including the negative-step cases that do agree. `witness_negative_step`: `$[::-1]` on `[1,2,3]` — the
+  RFC reverses, Get returns nothing (known finding C05-slice-negative-step).
+* `C05_current` — the same against `eval` (no restriction on steps); `C05_general`: parametric in the
+  deviation flags; `C05_fixed`: every flag off.
+* `C05_full_false` — without the restriction on the last fragment the statement is still false
   (`witness_trailing_descent`, known finding C05-trailing-descent-leaf).
 * `C05_original_partial`, `witness_inner_slice` (before 0e0caaf), `witness_siblings` (before baff053):
   what held and what failed for the code before those two fixes (`Cfg.original`).
@@ -66,6 +76,34 @@ theorem C05_current (x : List Frag) (d : JV) (ht : endsInDescent x = false) (hz 
 theorem C05_current_located (x : List Frag) (d : JV) (ht : endsInDescent x = false)
     (hz : (jsize d : Int) ≤ maxEnd) : getS Cfg.pinned Rep.simple x d = eval x d :=
   C05_located Cfg.pinned x d (Or.inl rfl) (Or.inl rfl) ht hz
+
+/-- **C05 for the code as it is now, against the documented semantics** (RFC 9535 slices): every path
+without a negative-step slice that does not end in a bare descent, every tree -/
+theorem C05_current_rfc (x : List Frag) (d : JV) (hp : x.all posStep = true)
+    (ht : endsInDescent x = false) (hz : (jsize d : Int) ≤ maxEnd) :
+    getM Cfg.pinned Rep.simple x d = evalVRfc x d := by
+  rw [C05_current x d ht hz, evalV, evalVRfc, evalRfc_eq_eval x d hp]
+
+/-- non-trivial instance of the hypotheses: `$..a[1:-1:2][?]` (a filter, a descent, a stepped slice) -/
+example : [Frag.descent, .child [97], .slice (some 1) (some (-1)) (some 2), .filter (fun _ => true)].all posStep = true ∧
+    endsInDescent [Frag.descent, .child [97], .slice (some 1) (some (-1)) (some 2), .filter (fun _ => true)] = false := by
+  decide
+
+/-- the slice indexes of the code's reading are the RFC's: for every positive step; for a negative step when
+start and end are written and `-n ≤ start < n` -/
+theorem C05_slice_step (n : Nat) (s e t : Option Int) :
+    (0 < t.getD 1 → sliceIdx n s e t = rfcSliceIdx n s e t) ∧
+    (∀ s0 e0, s = some s0 → e = some e0 → t.getD 1 < 0 → -(n : Int) ≤ s0 → s0 < n →
+      sliceIdx n s e t = rfcSliceIdx n s e t) :=
+  ⟨sliceIdx_eq_rfc_pos n s e t, fun s0 e0 hs he ht hlo hhi => by subst hs he; exact sliceIdx_eq_rfc_neg n s0 e0 t ht hlo hhi⟩
+
+/-- `$[::-1]` on `[1,2,3]`: the documented semantics reverses the array, Get returns nothing; `$[5:0:-1]`:
+documented `[3,2]`, Get nothing (known finding C05-slice-negative-step) -/
+theorem witness_negative_step :
+    (getM Cfg.pinned Rep.simple [.slice none none (some (-1))] (.arr [.int 1, .int 2, .int 3])).length = 0 ∧
+    (evalVRfc [.slice none none (some (-1))] (.arr [.int 1, .int 2, .int 3])).length = 3 ∧
+    (getM Cfg.pinned Rep.simple [.slice (some 5) (some 0) (some (-1))] (.arr [.int 1, .int 2, .int 3])).length = 0 ∧
+    (evalVRfc [.slice (some 5) (some 0) (some (-1))] (.arr [.int 1, .int 2, .int 3])).length = 2 := by decide
 
 /-- every flag off -/
 theorem C05_fixed (x : List Frag) (d : JV) (ht : endsInDescent x = false) (hz : (jsize d : Int) ≤ maxEnd) :
